@@ -184,7 +184,9 @@ func (f *Formatter) formatFile(filename string) FileFormatterResult {
 	}
 
 	result.Formatted = formatted
-	result.Changed = (original != formatted)
+	// A file that ends with one line break after the formatted text is formatted: that
+	// is the text the command itself prints, and what an editor saves
+	result.Changed = original != formatted && original != formatted+"\n"
 	return result
 }
 
